@@ -161,7 +161,7 @@ pub fn subs() -> Vec<Sub> {
 }
 
 pub fn run(env: &mut Env) -> RunResult {
-    let n = env.tier.sel(12_000, 150_000);
+    let n = env.tier.sel(12_000, 600_000);
     env.run_tapes(SUB_V3, n, 140)?;
     env.run_tapes(SUB_V5, n * 2, 240)?;
     env.run_tapes(SUB_T3, n / 2, 140)?;
